@@ -337,6 +337,11 @@ class IncomingMessageHandler(IncomingMessageHandlerBase):
             battery_level = round(float(message.payload))
         except (ValueError, OverflowError) as err:
             raise InvalidMessageError(err, message) from err
+        if not 0 <= battery_level <= 100:
+            raise InvalidMessageError(
+                ValueError("Battery level must be between 0 and 100."),
+                message,
+            )
         gateway.nodes[message.node_id].battery_level = battery_level
         return message
 
